@@ -18,7 +18,8 @@ fn err_name(e: &dyn std::fmt::Debug) -> String {
 /// Feed the instructions one by one to a fresh Loader.
 pub fn load_direct(insts: &[SInst]) -> Value {
     let r = catch(|| {
-        let mut l = dr::Loader::new();
+        // both public constructors must behave alike
+        let mut l = if insts.len() % 2 == 0 { dr::Loader::new() } else { dr::Loader::default() };
         if let ParseAction::Error(e) = l.initialize() {
             return json!({"st": "err", "e": err_name(&e), "at": 0, "m": []});
         }
@@ -197,6 +198,12 @@ pub fn random_loadable(g: &Gram, rng: &mut Rng, shuffle: bool, max_fns: usize) -
             }
         }
     }
+    // repeated declarations (the same capability / extension / name twice) are legal and must all survive
+    if !globals.is_empty() && rng.chance(1, 2) {
+        let j = rng.below(globals.len());
+        let dup = globals[j].clone();
+        if dup.op != 14 { globals.insert(j + if rng.chance(1, 2) { 1 } else { 0 }, dup); }
+    }
     if shuffle && globals.len() > 1 {
         layout = false;
         for i in (1..globals.len()).rev() { let j = rng.below(i + 1); globals.swap(i, j); }
@@ -248,6 +255,44 @@ fn is_structural(op: u32) -> bool {
     matches!(op, 54 | 55 | 56 | 248 | 249 | 250 | 251 | 252 | 253 | 254 | 255 | 4416 | 4448 | 4449 | 5294
         | 17 | 10 | 11 | 14 | 15 | 16 | 331 | 7 | 4 | 3 | 2 | 5 | 6 | 330 | 71 | 72 | 73 | 74 | 75 | 332 | 5632 | 5633 | 8 | 317 | 59 | 1
         | 19..=39 | 41..=52 | 322 | 327 | 4417 | 4456 | 4472 | 5341 | 4461 | 4462)
+}
+
+/// every enumerant / mask bit of every enum-kinded operand once, inside loadable modules (C01: values must survive)
+fn suite_enums(g: &Gram, out: &mut Out, rng: &mut Rng) {
+    let gen = Gen { g };
+    let mut seen: std::collections::HashSet<(String, u32)> = Default::default();
+    let mut batch: Vec<SInst> = vec![];
+    let flush = |batch: &mut Vec<SInst>, out: &mut Out, rng: &mut Rng| {
+        if batch.is_empty() { return; }
+        let mut c = Ctx::new();
+        let mut v = vec![class_inst(g, "Fn", rng, &mut c), class_inst(g, "Label", rng, &mut c)];
+        v.append(batch);
+        v.push(SInst { op: 253, rt: None, rid: None, ops: vec![] });
+        v.push(SInst { op: 56, rt: None, rid: None, ops: vec![] });
+        out.ev(load_event(&v, 0x0001_0500, 99, "enum-sweep", false));
+    };
+    for (&op, ig) in &g.insts {
+        if is_structural(op) && !matches!(op, 17 | 10 | 11 | 15 | 16 | 331 | 3 | 71 | 72 | 332 | 5632 | 5633 | 19..=39 | 41..=52) { continue; }
+        if matches!(op, 54 | 55 | 56 | 248 | 249 | 250 | 251 | 252 | 253 | 254 | 255 | 4416 | 4448 | 4449 | 5294 | 14) || g.has_context_kind(op) { continue; }
+        for (idx, lo) in ig.ops.iter().enumerate() {
+            let vals: Vec<u32> = match g.kinds.get(&lo.k) {
+                Some(KindG::ValueEnum { values }) => values.iter().map(|x| x.0).collect(),
+                Some(KindG::BitEnum { all, bits }) => { let mut x = vec![0, *all]; x.extend(bits.iter().map(|b| b.0)); x }
+                _ => continue,
+            };
+            for val in vals {
+                if !seen.insert((lo.k.clone(), val)) { continue; }
+                let mut forced = std::collections::HashMap::new();
+                forced.insert(idx, val);
+                let mut c = Ctx::new();
+                let i = gen.inst(op, rng, &mut c, &Plan { optionals: Some(ig.ops.iter().filter(|o| o.q == "ZeroOrOne").count()), variadic: Some(1), forced });
+                if !c.decls.is_empty() { continue; }
+                batch.push(i);
+                if batch.len() >= 10 { flush(&mut batch, out, rng); }
+            }
+        }
+    }
+    flush(&mut batch, out, rng);
 }
 
 fn suite_random(g: &Gram, out: &mut Out, rng: &mut Rng, n: usize) {
@@ -308,6 +353,7 @@ pub fn drive(args: &[String]) {
         "sweep" => suite_sweep(&g, &mut out, &mut rng),
         "random" => suite_random(&g, &mut out, &mut rng, n),
         "raw" => suite_raw(&g, &mut out, &mut rng, n),
+        "enums" => suite_enums(&g, &mut out, &mut rng),
         "replay" => {
             let f = std::io::BufReader::new(std::fs::File::open(arg(args, "--histories").expect("--histories")).unwrap());
             for line in f.lines() {
